@@ -448,7 +448,13 @@ class Component(CaselessDict):
                 else:
                     stack[-1].add_component(component)
                 if isinstance(component, Timezone) and 'TZID' in component:
-                    tzp.cache_timezone_component(component)
+                    try:
+                        tzp.cache_timezone_component(component)
+                    except ValueError:
+                        raise
+                    except Exception as e:
+                        # a VTIMEZONE with missing or contradictory properties
+                        raise ValueError(f"Invalid VTIMEZONE {component['TZID']!r}: {e!r}") from e
             # we are adding properties to the current top of the stack
             else:
                 factory = types_factory.for_property(name)
